@@ -10,6 +10,7 @@ MODULES = [
     "specs.row",
     "specs.toc",
     "specs.attrs",
+    "specs.purity",
     "specs.b_text",
     "specs.b_package",
     "specs.b_values",
